@@ -63,6 +63,9 @@ TIE_SEARCH = {
     "fnv_write_tie": ("TieHash", "FnvHasher::write"),
     "store_find_index_tie": ("TieIntern", "find_index"), "store_find_index_is_findIndex": ("TieIntern", "find_index"),
     "store_get_tie": ("TieIntern", "ObjStringStore::get"),
+    "store_adjust_capacity_tie": ("TieIntern", "ObjStringStore::adjust_capacity"), "rehash_loop_tie": ("TieIntern", "ObjStringStore::adjust_capacity"),
+    "store_insert_tie": ("TieIntern", "ObjStringStore::insert"), "store_insert_on_reachable": ("TieIntern", "ObjStringStore::insert"),
+    "grow_test_exact": ("TieIntern", "ObjStringStore::insert"),
     "sweep_tie": ("TieGc", "sweep"), "mark_roots_tie": ("TieGc", "mark_roots"), "trace_references_tie": ("TieGc", "trace_references"),
     "collect_passes_are_the_model": ("TieGc", "sweep"),
     "allocate_raw_tie": ("TiePacing", "allocate_raw"),
